@@ -548,12 +548,12 @@ def run(c):
     # ---- 4. storm: thousands of fresh pairs, callers issued from several threads while the pair's
     #         lookup completes; direct liveness monitor; a sample of the pairs is traced -----------
     if "storm" in stages:
-        pairs = int(os.environ.get("VERIF_C20_STORM_PAIRS", 60000 if not thorough else 600000))
+        pairs = int(os.environ.get("VERIF_C20_STORM_PAIRS", 45000 if not thorough else 500000))
         ev = os.path.join(c.work, "storm.ndjson")
         resj = os.path.join(c.work, "storm.json")
         rc, so = c.sh([binp, "storm", ev, resj], timeout=3000,
                       env={"VERIF_STORM_PAIRS": pairs, "VERIF_STORM_SAMPLE_EVERY": 200 if not thorough else 600,
-                           "VERIF_STORM_BUDGET_S": 75 if not thorough else 600})
+                           "VERIF_STORM_BUDGET_S": 60 if not thorough else 500})
         if rc != 0:
             c.fail_tool("storm harness failed rc=%s %s" % (rc, (so or "")[-500:]))
         res = json.load(open(resj))
